@@ -39,6 +39,22 @@ def _zero_legit(e):
     return False
 
 
+def _key_domain_has_zero_legit(module, fn, key):
+    """`key` is a loop / comprehension variable ranging over a constant collection that contains an attribute for which 0 is legitimate."""
+    if isinstance(key, ast.Constant):
+        return key.value in ZERO_LEGIT_KEYS
+    if not isinstance(key, ast.Name):
+        return False
+    for node in ast.walk(fn):
+        gens = node.generators if isinstance(node, (ast.ListComp, ast.SetComp, ast.DictComp, ast.GeneratorExp)) else [node] if isinstance(node, ast.For) else []
+        for g in gens:
+            if isinstance(g.target, ast.Name) and g.target.id == key.id:
+                dom = try_fold(g.iter, module=module, default=None) if 'module' in try_fold.__code__.co_varnames else try_fold(g.iter, default=None)
+                if isinstance(dom, (list, tuple, set, frozenset, dict)) and any(k in ZERO_LEGIT_KEYS for k in dom if isinstance(k, str)):
+                    return True
+    return False
+
+
 def truthy_zero(ck, rels, rule='TRUTHY-zero'):
     """No `value or default` / bare truthiness test on a value for which 0 is legitimate."""
     n = 0
@@ -61,8 +77,14 @@ def truthy_zero(ck, rels, rule='TRUTHY-zero'):
                     tests.append(node.operand)
                 if isinstance(node, ast.BoolOp) and isinstance(node.op, ast.And):
                     tests += node.values
+                if isinstance(node, ast.comprehension):
+                    tests += node.ifs
                 for t in tests:
                     if _zero_legit(t) and not (isinstance(t, ast.Call) and len(t.args) == 1):
+                        hits.append(('truthiness', t))
+                    elif _zero_legit(t) and isinstance(t, ast.Call) and len(t.args) == 1 and _key_domain_has_zero_legit(module, fn, t.args[0]):
+                        hits.append(('truthiness', t))
+                    elif isinstance(t, ast.Subscript) and not isinstance(t.slice, ast.Constant) and _key_domain_has_zero_legit(module, fn, t.slice):
                         hits.append(('truthiness', t))
                 for kind, expr in hits:
                     n += 1
@@ -388,3 +410,51 @@ def arg_binding(ck, rels, rule='ARG-binding'):
     ck.extra.setdefault('arg_binding', {})['calls_resolved'] = resolved
     ck.extra['arg_binding']['same_name_arguments'] = samename
     return resolved, samename
+
+
+# ----------------------------------------------------------------------------------------------------------------------
+# ZIP-prefix: an equality predicate that walks two sequences in lock-step must first establish that they are equally long
+ZIP_TRIAGE = {
+    ('vermouth/molecule.py', 'interaction_match', 'zip(nodes, atom_attrs)'):
+        'reached only when the atom tuples are equal; atom_attrs is built per atom by the parser ([{}] * len(atoms) as fall-back), and a missing entry means "no constraint on that atom", not a mismatch',
+    ('vermouth/molecule.py', 'Molecule.same_nodes', 'zip(self.nodes.values(), other.nodes.values())'):
+        'the ordered key lists were compared just before (`list(self.nodes.keys()) != list(other.nodes.keys())` returns False), so both views are equally long',
+    ('vermouth/molecule.py', 'Link.same_non_edges', "zip(itertools.groupby(sorted_self, key=lambda x: x[0]), itertools.groupby(sorted_other, key=lambda x: x[0]))"):
+        'total lengths are compared first and every zipped group pair compares its key and its length, so a surplus group on one side forces a mismatch earlier',
+}
+
+
+def zip_prefix(ck, rel, predicates, rule='ZIP-prefix'):
+    """`predicates`: qualified names of equality predicates in module `rel`.  Every zip() of two sequences inside them is
+    either triaged (frozen table above) or guarded by a length comparison of the same operands that rejects a mismatch."""
+    module = ck.index.mod(rel)
+    sites = 0
+    for qual in predicates:
+        fn = module.functions.get(qual)
+        if fn is None:
+            continue
+        for call in [c for c in walk_local(fn) if isinstance(c, ast.Call) and call_name(c) in ('zip', 'itertools.zip_longest', 'zip_longest')]:
+            if call_name(call) != 'zip' or len(call.args) < 2:
+                continue
+            if any(isinstance(k, ast.keyword) and k.arg == 'strict' and try_fold(k.value, default=False) is True for k in call.keywords):
+                continue
+            sites += 1
+            text = u(call)
+            ops = [u(a) for a in call.args]
+            defs = []
+            for a in call.args:
+                d = single_def(fn, a.id) if isinstance(a, ast.Name) else None
+                defs.append(u(d) if d is not None else None)
+            guarded = False
+            for cmp_ in [n for n in walk_local(fn) if isinstance(n, ast.Compare) and len(n.ops) == 1 and isinstance(n.ops[0], (ast.NotEq, ast.Eq))]:
+                sides = [cmp_.left, cmp_.comparators[0]]
+                if all(isinstance(s_, ast.Call) and call_name(s_) == 'len' and s_.args for s_ in sides):
+                    got = sorted(u(s_.args[0]) for s_ in sides)
+                    if got == sorted(ops) or (None not in defs and got == sorted(defs)):
+                        guarded = cmp_.lineno <= call.lineno
+            reason = ZIP_TRIAGE.get((rel, qual, text))
+            ck.ob(rule, module.loc(call), guarded or reason is not None,
+                  '{}: `{}` walks two sequences in lock-step; {}'.format(qual, text[:90], 'a length comparison of the same operands precedes it' if guarded else
+                                                                        ('triaged: ' + reason if reason else 'nothing establishes that they are equally long -- a strict prefix compares equal')),
+                  key='{}|{}|{}'.format(rule, qual, text[:60]))
+    return sites
